@@ -1,7 +1,7 @@
 ------------------------------ MODULE CanBase ------------------------------
 (* Bytes, little-endian fields, bit sequences and small helpers shared by every CANopen module. *)
 (* Everything >= 2^31 is represented structurally (byte / bit sequences), never as an integer.  *)
-EXTENDS Naturals, Integers, Sequences, FiniteSets, TLC
+EXTENDS Naturals, Integers, Sequences, FiniteSets, TLC, Bitwise, SequencesExt
 
 Byte == 0..255
 
@@ -34,4 +34,11 @@ ByteOfBits(b, k) == \* k-th byte (1-based) of a bit sequence whose length is a m
       b[o + 1] + 2 * b[o + 2] + 4 * b[o + 3] + 8 * b[o + 4] + 16 * b[o + 5] + 32 * b[o + 6]
       + 64 * b[o + 7] + 128 * b[o + 8]
 BytesOf(b) == [k \in 1..(Len(b) \div 8) |-> ByteOfBits(b, k)]
+
+\* CRC-16/XMODEM (poly 0x1021, init 0, MSB first) as used by SDO block transfer, table driven
+CrcShift(c) == IF c >= 32768 THEN ((c - 32768) * 2) ^^ 4129 ELSE c * 2
+CrcTab == [b \in 0..255 |->
+             CrcShift(CrcShift(CrcShift(CrcShift(CrcShift(CrcShift(CrcShift(CrcShift(b * 256))))))))]
+CrcStep(crc, byte) == ((crc % 256) * 256) ^^ CrcTab[(crc \div 256) ^^ byte]
+Crc16(data) == FoldLeft(CrcStep, 0, data)
 =============================================================================
